@@ -24,6 +24,8 @@ pub struct BuiltAsync {
     pub layout: Layout,
     pub snapshot: Vec<Option<Core>>,
     pub shape: (Vec<Vec<usize>>, usize),
+    /// a background job panicked: the channel is dead, the dispatcher must not be touched again
+    pub broken: bool,
 }
 
 pub fn build_async(sc: &Scenario) -> BuiltAsync {
@@ -52,7 +54,7 @@ pub fn build_async(sc: &Scenario) -> BuiltAsync {
     let shape = ad.verif_shape();
     reset_keep_setup(&ctx);
     let snapshot = snapshot_world(&ctx, ad.world_mut());
-    BuiltAsync { ctx, ad: Some(ad), layout, snapshot, shape }
+    BuiltAsync { ctx, ad: Some(ad), layout, snapshot, shape, broken: false }
 }
 
 fn reset_keep_setup(ctx: &Ctx) {
@@ -197,8 +199,15 @@ pub fn run_async(b: &mut BuiltAsync, sc: &Scenario, spec: &StratSpec, seed: u64,
         detsim::yield_with_info(PH_CALLER);
     });
     let events = std::mem::take(&mut *ctx.events.lock().unwrap());
-    let cells_end = probe_all(&ctx, ad.world());
-    let final_world = snapshot_world(&ctx, ad.world_mut());
+    // a background job that panicked (real rayon would abort the process) never hands the
+    // state back: the dispatcher is unusable from here on
+    let broken = !report.escaped_panics.is_empty();
+    let (cells_end, final_world) = if broken {
+        b.broken = true;
+        (vec![], vec![])
+    } else {
+        (probe_all(&ctx, ad.world()), snapshot_world(&ctx, ad.world_mut()))
+    };
     let ro = RunOut {
         events,
         outcome: report.outcome,
@@ -415,7 +424,9 @@ pub fn eval_async_on(b: &mut BuiltAsync, sc: &Scenario, strat: &StratSpec, rs: u
         o => out.push(vio("HARNESS", "outcome", format!("{:?}", o))),
     }
     for e in &ao.ro.escaped {
-        out.push(vio("HARNESS", "escaped-panic", e.clone()));
+        if !crate::util::is_borrow_panic(e) && !e.contains("Sender dropped") {
+            out.push(vio("HARNESS", "escaped-panic", e.clone()));
+        }
     }
     let blocked_ops = ao.obs.iter().filter(|o| o.op != AOp::Running && o.finished_at_issue < o.dispatched).count() as u64;
     AsyncEval {
@@ -435,5 +446,9 @@ pub fn eval_async_on(b: &mut BuiltAsync, sc: &Scenario, strat: &StratSpec, rs: u
 pub fn dispose_async(mut b: BuiltAsync) {
     // the async dispatcher has no dispose; dropping it must not hang or panic
     let ad = b.ad.take();
-    drop(ad);
+    if b.broken {
+        std::mem::forget(ad);
+    } else {
+        drop(ad);
+    }
 }
